@@ -12,7 +12,14 @@ env.import_repo()
 
 from hippolyzer.lib.proxy.circuit import InjectionTracker  # noqa: E402
 
+from hippolyzer.lib.base.message.udpdeserializer import UDPMessageDeserializer  # noqa: E402
+from hippolyzer.lib.base.settings import Settings  # noqa: E402
+
 from ..monitors import tracker as tmon  # noqa: E402
+
+_settings = Settings()
+_settings.ENABLE_DEFERRED_PACKET_PARSING = False
+_eager = UDPMessageDeserializer(settings=_settings)
 
 LEVEL = "exploration"
 SHARDS = {"quick": 8, "thorough": 16}
@@ -30,7 +37,8 @@ ASSUMPTIONS = [
     "packet-id wrap-around is out of scope (documented TODO in the code)",
 ]
 MUST_REACH = {"states": 500, "evictions_observed": 10, "reverse_after_later_injection": 10, "out_of_order_sends": 10,
-              "resends_checked": 10, "law_evaluations": 10000}
+              "resends_checked": 10, "law_evaluations": 10000, "circuit_forwarded": 100, "circuit_proxy_packets": 50,
+              "circuit_replays_of_sent_messages": 10, "circuit_endpoint_resends": 5}
 
 ALPHABET = "NKHRLI"
 
@@ -251,6 +259,127 @@ def random_walk(ctx, rng, maxlen, steps):
     return path
 
 
+# ------------------------------------------------------------------ the same laws, observed on the wire of a real circuit
+
+class _RecTransport:
+    def __init__(self):
+        self.ids = []
+
+    def send_packet(self, packet):
+        self.ids.append(_eager.deserialize(bytes(packet.data)).packet_id)
+
+    def close(self):
+        pass
+
+
+def circuit_history(ctx, rng, steps):
+    """A real ProxiedCircuit, one direction.  Every packet the proxy originates itself - a fresh message, the copy of a packet
+    it took before forwarding, or the copy (take()) of a message that already went out, forwarded or injected - counts as an
+    injection; every datagram leaving the circuit is decoded and its wire id held against the laws."""
+    from hippolyzer.lib.base.message.message import Message, Block
+    from hippolyzer.lib.base.network.transport import Direction
+    from hippolyzer.lib.proxy.circuit import ProxiedCircuit
+    tr = _RecTransport()
+    circ = ProxiedCircuit(("10.0.0.1", 1), ("10.1.0.1", 2), tr)
+    injected, first, wires = set(), {}, {}      # proxy's wire ids; original -> wire id; wire id -> logical packet
+    went_out = []                               # message objects that were sent (for replays)
+    next_orig, path = rng.choice([0, 1]), []
+
+    def mk(packet_id):
+        return Message("CompletePingCheck", Block("PingID", PingID=packet_id is not None and packet_id % 256 or 0),
+                       packet_id=packet_id, direction=Direction.OUT)
+
+    def emitted(what):
+        got, tr.ids[:] = list(tr.ids), []
+        if len(got) != 1:
+            ctx.violation("circuit:emission-count", "sending one message did not put exactly one datagram on the wire",
+                          {"path": list(path), "what": what, "emitted": got})
+            return None
+        return got[0]
+
+    for _ in range(steps):
+        a = rng.choices(["F", "R", "J", "T", "TJ", "K"], weights=[6, 1, 3, 2, 1, 1])[0]
+        if a in ("T", "TJ", "R") and not went_out:
+            continue
+        path.append(a)
+        if len(path) > 60:
+            del path[0]
+        try:
+            if a in ("F", "R"):
+                if a == "F":
+                    o = next_orig
+                    next_orig += 1
+                else:
+                    o = rng.choice(sorted(first)[-4:]) if first else None
+                    if o is None:
+                        continue
+                msg = mk(o)
+                circ.send(msg)
+                w = emitted(a)
+                if w is None:
+                    return
+                if a == "F":
+                    went_out.append((msg, "fwd"))
+                    want = expected_wire(injected, o)
+                    if w != want or w in wires:
+                        mech = "circuit:forwarded-id-collides" if w in wires else "circuit:forwarded-id-wrong"
+                        ctx.violation(mech, "a forwarded packet left the circuit under the wrong wire id",
+                                      {"path": list(path), "orig": o, "wire": w, "expected": want, "injected": sorted(injected)[-8:],
+                                       "collides_with": wires.get(w)})
+                        return
+                    first[o] = w
+                    wires[w] = ("fwd", o)
+                    ctx.count("circuit_forwarded")
+                else:
+                    if w != first[o]:
+                        ctx.violation("circuit:resend-id-unstable", "an endpoint's retransmission left under another wire id than "
+                                      "the first copy", {"path": list(path), "orig": o, "wire": w, "first": first[o]})
+                        return
+                    ctx.count("circuit_endpoint_resends")
+            else:
+                if a == "J":
+                    msg = mk(None)
+                elif a == "K":      # taken before it was forwarded: the original is dropped, the copy is the proxy's own
+                    o = next_orig
+                    next_orig += 1
+                    orig = mk(o)
+                    msg = orig.take()
+                    circ.drop_message(orig)
+                    tr.ids[:] = []
+                else:
+                    kinds = [m for (m, k) in went_out if (k == "inj") == (a == "TJ")]
+                    if not kinds:
+                        continue
+                    msg = rng.choice(kinds[-5:]).take()
+                    ctx.count("circuit_replays_of_sent_messages")
+                circ.send(msg)
+                w = emitted(a)
+                if w is None:
+                    return
+                went_out.append((msg, "inj"))
+                seen_max = max(wires) if wires else -1
+                problems = []
+                if w in wires:
+                    problems.append("reuses the wire id of " + repr(wires[w]))
+                if w <= seen_max:
+                    problems.append(f"not above the highest wire id seen ({seen_max})")
+                if not circ.out_injections.was_injected(w):
+                    problems.append("tracker does not know it as injected")
+                if problems:
+                    ctx.violation("circuit:proxy-packet-id:" + {"J": "fresh", "K": "taken", "T": "replay", "TJ": "replay"}[a],
+                                  "a packet the proxy originated did not get a fresh injected wire id",
+                                  {"path": list(path), "wire": w, "problems": problems})
+                    return
+                injected.add(w)
+                wires[w] = ("inj", a)
+                ctx.count("circuit_proxy_packets")
+        except Exception as e:
+            ctx.violation("circuit:raises", "sending through the circuit raised", {"path": list(path), "exc": repr(e)[:300]})
+            return
+        ctx.ev()
+    ctx.nontrivial(("circuit", tuple(path[-30:]), len(injected)))
+
+
 def run(ctx):
     tmon.install()
     depth = ctx.pick(8, 12)
@@ -277,6 +406,10 @@ def run(ctx):
         path = random_walk(ctx, rng, maxlen, 300)
         if k == 0:
             ctx.sample({"random_walk": {"maxlen": maxlen, "actions": path[:120]}})
+    for k in range(ctx.pick(40, 600)):
+        if ctx.out_of_time():
+            break
+        circuit_history(ctx, rng, rng.choice([20, 60, 150]))
     tmon.drain(ctx)
 
 
